@@ -1,5 +1,6 @@
 from __future__ import annotations
 
+import dataclasses
 import logging
 from collections import defaultdict
 from pathlib import Path
@@ -1010,7 +1011,8 @@ class StubsStringGenerator:
                     alias = qualified_import.alias
 
             if alias:
-                node.name = alias
+                # Rename a copy, the API model must not be changed by the stub generation
+                node = dataclasses.replace(node, name=alias)
 
             self.reexport_modules[shortest_reexport_module_id].append(node)
             return True
